@@ -421,7 +421,10 @@ def run_core(scn, want=("c01", "c02", "c03", "c04", "c05", "c06")):
     if B is not None:
         from litedram.core.bankmachine import BankMachine
         bms_ = [m_ for _, m_ in tb.dut.controller._submodules if isinstance(m_, BankMachine)]
-        bm_sig = [(sim.index(b_.cmd.valid), sim.index(b_.cmd.ready), sim.index(b_.cmd.is_read), sim.index(b_.cmd.is_write)) for b_ in bms_]
+        bufs_ = [[m_ for _, m_ in b_._submodules if type(m_).__name__ == "Buffer"][0] for b_ in bms_]     # the 1-deep request buffer
+        bm_sig = [(sim.index(b_.cmd.valid), sim.index(b_.cmd.ready), sim.index(b_.cmd.is_read), sim.index(b_.cmd.is_write),
+                   sim.index(q_.source.valid), sim.index(q_.source.we), sim.index(q_.source.ready))
+                  for b_, q_ in zip(bms_, bufs_)]
         bm_pend = [None] * len(bm_sig)       # direction pending ("r"/"w") or None
         bm_over = [0] * len(bm_sig)
     postponing = tb.ctrl.get("refresh_postponing", 1)
@@ -487,20 +490,22 @@ def run_core(scn, want=("c01", "c02", "c03", "c04", "c05", "c06")):
         cyc_box[0] = cyc
         if bm_sig is not None:
             served = None
-            for j_, (v_, r_, ir_, iw_) in enumerate(bm_sig):
-                d_ = ("r" if S[ir_] else "w" if S[iw_] else None) if S[v_] else None
+            for j_, (v_, r_, ir_, iw_, bv_, bw_, br_) in enumerate(bm_sig):
+                # the request the bank machine is working on (it stays pending through the precharge / activate it may need, and
+                # through refreshes), and the column command that finally serves it
+                d_ = ("w" if S[bw_] else "r") if S[bv_] else None
                 if d_ != bm_pend[j_]:
                     bm_pend[j_] = d_
                     bm_over[j_] = 0
-                if d_ is not None and S[r_]:
-                    served = (j_, d_)
+                if S[v_] and S[r_] and (S[ir_] or S[iw_]):
+                    served = (j_, "r" if S[ir_] else "w")
+                    bm_over[j_] = 0
             if served is not None:
                 for j_ in range(len(bm_sig)):
                     if j_ != served[0] and bm_pend[j_] == served[1]:
                         bm_over[j_] += 1
                         if bm_over[j_] > overtaken["max"]:
                             overtaken.update(max=bm_over[j_], bank=j_, dir=served[1])
-                bm_pend[served[0]] = None
         sim.step()
         cyc = sim.cycles["sys"]
         if cyc % sample_every == 0:
